@@ -116,8 +116,9 @@ func (r *c18Run) status(op []string) {
 	}
 }
 
-// settle applies the completion notice of every dispatcher that became complete (C18 does not
-// explore the window between completion and its notice; C17 does).
+// settle waits until the completion notice of every dispatcher that became complete has reached the
+// event loop's queue (it is sent from a goroutine). The notice is NOT applied here: the schedule says
+// when (`notice` operation), so that ticks and removals can fall between completion and its event.
 func (r *c18Run) settle() {
 	w := r.w
 	for i := 0; i < c18NTor; i++ {
@@ -125,12 +126,30 @@ func (r *c18Run) settle() {
 		if ctrl == nil || !ctrl.dispatcher.Complete() || r.noticed[ctrl.dispatcher] {
 			continue
 		}
-		e, ok := w.takeCompletion(ctrl.dispatcher, 5*time.Second)
+		d := ctrl.dispatcher
+		ok := w.loop.waitFor(func(e event) bool {
+			ce, ok := e.(dispatcherCompleteEvent)
+			return ok && ce.dispatcher == d
+		}, 5*time.Second)
 		if !ok {
 			panic("harness: completion notice did not arrive")
 		}
-		e.apply(w.st)
-		r.noticed[ctrl.dispatcher] = true
+		r.noticed[d] = true
+	}
+}
+
+// applyNotices applies every queued completion notice of torrent i, oldest first.
+func (r *c18Run) applyNotices(i int) {
+	h := r.w.blobs[i].mi.InfoHash()
+	for {
+		e, ok := r.w.loop.take(func(e event) bool {
+			ce, ok := e.(dispatcherCompleteEvent)
+			return ok && ce.dispatcher.InfoHash() == h
+		}, 0)
+		if !ok {
+			return
+		}
+		e.apply(r.w.st)
 	}
 }
 
@@ -205,6 +224,13 @@ func (r *c18Run) do(op []string) bool {
 		r.tr.Op(op[1:], res)
 	case op[1] == "tick" && len(op) == 2:
 		preemptionTickEvent{}.apply(w.st)
+		r.tr.Op(op[1:])
+	case op[1] == "notice" && len(op) == 3:
+		i, ok := c18Tor(op[2])
+		if !ok {
+			return false
+		}
+		r.applyNotices(i)
 		r.tr.Op(op[1:])
 	case op[1] == "rm" && len(op) == 3:
 		i, ok := c18Tor(op[2])
@@ -284,9 +310,9 @@ func TestVerif_C18(t *testing.T) {
 		{"op", "new", "h0", "0"}, {"op", "new", "h0", "1"}, {"op", "new", "h0", "2"},
 		{"op", "serve", "h0", "p0", "ok"}, {"op", "serve", "h0", "p0", "closefail"},
 		{"op", "write", "h0", "p0", "good"}, {"op", "write", "h0", "p1", "good"}, {"op", "write", "h0", "p1", "bad"},
-		{"op", "rm", "h0"},
+		{"op", "rm", "h0"}, {"op", "notice", "h0"},
 	}
-	depth := verifh.Scale(3, 5)
+	depth := verifh.Scale(3, 4)
 	var rec func(prefix [][]string, d int)
 	rec = func(prefix [][]string, d int) {
 		if d == 0 {
@@ -330,9 +356,54 @@ func TestVerif_C18(t *testing.T) {
 			}
 		}
 	}
+	// (b2) the completion window: a download of 2 pieces whose last piece arrives a ns after creation; the
+	// completion event is applied before the tick, after it, or never; tick c ns after completion; then the
+	// blob is requested again
+	for ttl := 1; ttl <= 3; ttl++ {
+		for a := 0; a <= ttl+1; a++ {
+			for c := 0; c <= ttl+1; c++ {
+				for when := 0; when < 3; when++ {
+					for _, cfg := range [][]string{c18Cfg(ttl, ttl+2, 2), c18Cfg(ttl+2, ttl, 2), c18Cfg(ttl, ttl, 2)} {
+						ops := [][]string{{"op", "new", "h0", "1"}, {"op", "adv", strconv.Itoa(a)}, {"op", "write", "h0", "p1", "good"}}
+						if when == 0 {
+							ops = append(ops, []string{"op", "notice", "h0"})
+						}
+						ops = append(ops, []string{"op", "adv", strconv.Itoa(c)}, []string{"op", "tick"})
+						if when == 1 {
+							ops = append(ops, []string{"op", "notice", "h0"})
+						}
+						ops = append(ops, []string{"op", "new", "h0", "0"}, []string{"op", "serve", "h0", "p0", "ok"})
+						c18Exec(tr, verifh.Case{Cfg: cfg, Ops: ops})
+						tr.Count("window_cases", 1)
+					}
+				}
+			}
+		}
+	}
+	// (b3) every ordering of {last piece written, completion event applied, tick, removal, re-request} and clock
+	// advances, to a depth, starting from a 2-piece download with one piece present
+	walpha := [][]string{
+		{"op", "write", "h0", "p1", "good"}, {"op", "notice", "h0"}, {"op", "tick"}, {"op", "rm", "h0"},
+		{"op", "adv", "2"}, {"op", "new", "h0", "1"}, {"op", "serve", "h0", "p0", "ok"},
+	}
+	wdepth := verifh.Scale(4, 6)
+	var wrec func(prefix [][]string, d int)
+	wrec = func(prefix [][]string, d int) {
+		if d == 0 {
+			c18Exec(tr, verifh.Case{Cfg: c18Cfg(2, 3, 2), Ops: prefix})
+			tr.Count("window_exhaustive_cases", 1)
+			return
+		}
+		for _, o := range walpha {
+			wrec(append(prefix[:len(prefix):len(prefix)], o), d-1)
+		}
+	}
+	for d := 1; d <= wdepth; d++ {
+		wrec([][]string{{"op", "new", "h0", "1"}}, d)
+	}
 	// (c) random long timelines over two torrents
 	rnd := verifh.NewRand(verifh.Seed(), "c18")
-	for n := 0; n < verifh.Scale(300, 20000); n++ {
+	for n := 0; n < verifh.Scale(300, 15000); n++ {
 		sttl, lttl, np := 1+rnd.Intn(9), 1+rnd.Intn(9), 1+rnd.Intn(3)
 		var ops [][]string
 		steps := 5 + rnd.Intn(40)
@@ -353,8 +424,10 @@ func TestVerif_C18(t *testing.T) {
 				o = []string{"op", "new", h, strconv.Itoa(rnd.Intn(np + 2))}
 			case x < 72:
 				o = []string{"op", "serve", h, p, rnd.Pick("ok", "ok", "ok", "noread", "closefail")}
-			case x < 95:
+			case x < 88:
 				o = []string{"op", "write", h, p, rnd.Pick("good", "good", "good", "bad")}
+			case x < 95:
+				o = []string{"op", "notice", h}
 			default:
 				o = []string{"op", "rm", h}
 			}
